@@ -2,6 +2,7 @@
 """Runs every stored seed against the check of the property it breaks (and any extra properties given in
 seeded/<id>/meta.json 'also_check'), records detection in meta.json, prints a table.  /repo is restored after each."""
 import glob, json, os, subprocess, sys
+os.environ["VERIF_EVIDENCE_DIR"] = "/tmp/verif_seed_evidence"
 ROOT = "/verif"
 only = sys.argv[1:]
 rows = []
